@@ -95,6 +95,7 @@ func main() {
 		usedContracts: map[string]bool{}, usedModels: map[string]bool{}, unknownCalls: map[string]int{}, havocCalls: map[string]int{},
 		inlined: map[string]bool{}, maxSteps: 400000, pathsPerFn: map[string]int{}, pkgInitDone: map[string]bool{},
 	}
+	theEngine = v.eng
 	findings := loadFindings(filepath.Join(*vdir, "known_findings.json"))
 	v.findings = findings
 	var missing []string
